@@ -1,4 +1,4 @@
-(* Invariant, step lemma and the lemmas behind Properties_C04.v (and the cow parts of C14, C20). *)
+(* Version heap of the cow_guarded model: reference counts, global clauses, owner knowledge (used by CowProofs.v). *)
 From Coq Require Import List Arith ZArith Lia Bool.
 Import ListNotations.
 From GV Require Import Sched Events CowModel CowBase.
@@ -71,6 +71,7 @@ Definition ook (g : glob) (l : loc) : Prop :=
       let x := heap g (cv l) in
       published x = true /\ content x = apply_edits (content (heap g (committed g))) (ced l)
   | C_unlock => let x := heap g (cv l) in (cv l < next g)%nat /\ published x = false /\ freed x = false /\ refs x = O
+  | W_ounlock => committed g = cv l
   | _ => True
   end.
 
@@ -251,6 +252,7 @@ Lemma ook_hp_step t c g l g' l' es :
       let x := heap g' (cv l') in
       published x = true /\ content x = apply_edits (content (heap g' (committed g'))) (ced l')
   | C_unlock => let x := heap g' (cv l') in (cv l' < next g')%nat /\ published x = false /\ freed x = false /\ refs x = O
+  | W_ounlock => committed g' = cv l'
   | _ => True
   end.
 Proof.
@@ -291,7 +293,7 @@ Proof.
               | H : nth_error _ _ = Some (Some ?sn) |- _ => pose proof (Hsn _ (nth_error_In _ _ H)); revert H
               end; intros.
   all: try match type of Hk with ex _ => destruct Hk as [sn0 [Hk Hk2]]; pose proof (Hsn _ (nth_error_In _ _ Hk)) end.
-  all: unfold hvok, pvok, rd_open, rd_close, wr_close, cp in *; cbn in *; autorewrite with cow; cbn.
+  all: unfold hvok, pvok, rd_open, rd_close, wr_close, wok, oth, cp in *; cbn in *; autorewrite with cow; cbn.
   all: try (heapsimp; eqbs; cbn in *; try (destruct (rl g)); try (destruct lr); cbn in *;
             rewrite ?fold_left_app; cbn [apply_edits fold_left apply_edit] in *;
             splits; solve [auto | lia | congruence | discriminate | exfalso; lia | intuition (auto; try lia; try congruence)]).
